@@ -139,6 +139,29 @@ func scalarFaults(name string, env *univ.Env, srv *drive.Server, cr *childResult
 	count("fault_marshal_panic_post", 1)
 	cr.Distinct = append(cr.Distinct, name+"|scalar|marshal_panic_post")
 
+	// --- the failed request names its operation and carries variables and extensions; the healthy
+	// request after it has none of those members: nothing of the failed request may be left in
+	// whatever the transport reuses between requests
+	postRaw := func(body string) (int, string) {
+		resp, err := http.Post(ts.URL, "application/json", strings.NewReader(body))
+		if err != nil {
+			return 0, err.Error()
+		}
+		defer resp.Body.Close()
+		b, _ := io.ReadAll(resp.Body)
+		return resp.StatusCode, string(b)
+	}
+	for i := 0; i < 8; i++ {
+		postRaw(`{"query":"query Boom($b: Boom) { scalar xboom(b: $b) }","operationName":"Boom","variables":{"b":"mpanic:3"},"extensions":{"left":"over"}}`)
+		status, body = postRaw(`{"query":"{ scalar xboom(b: \"ok\") }"}`)
+		cr.Evals++
+		if status != 200 || !strings.Contains(body, `"xboom":"ok"`) {
+			viol("a request without operationName / variables is answered wrongly after a request with them whose serialization panicked", map[string]any{"status": status, "body": body, "round": i})
+			break
+		}
+	}
+	count("fault_marshal_panic_then_bare_request", 8)
+
 	// --- with the Apollo federated tracer (ftv1) recording the operation: user-code failures are
 	// contained exactly as without it - several failures in one response (some at positions the
 	// tracer has no node for, like argument errors), sibling resolvers running concurrently
